@@ -167,7 +167,18 @@ def law_prefixedarray_lazyparent(p):
 
 
 def law_bitstruct(p):
-    widths, = p
+    widths = p[0]
+    style = p[1] if len(p) > 1 else "positional"
+    if style != "positional":
+        # keyword members come after the positional ones, in the order written - in BitStruct as in Struct
+        k = 0 if style == "keyword" else max(1, len(widths) // 2)
+        def pos():
+            return [("f%d" % i) / C.BitsInteger(w) for i, w in enumerate(widths[:k])]
+        def kw():
+            return {("f%d" % (i + k)): C.BitsInteger(w) for i, w in enumerate(widths[k:])}
+        def allpos():
+            return [("f%d" % i) / C.BitsInteger(w) for i, w in enumerate(widths)]
+        return [C.BitStruct(*pos(), **kw()), C.Bitwise(C.Struct(*pos(), **kw())), C.Bitwise(C.Struct(*allpos()))], sum(widths) // 8, "dictints"
     def members():
         return [("f%d" % i) / C.BitsInteger(w) for i, w in enumerate(widths)] + ([C.Padding(-sum(widths) % 8)] if sum(widths) % 8 else [])
     return [C.BitStruct(*members()), C.Bitwise(C.Struct(*members()))], (sum(widths) + 7) // 8, "dictints"
@@ -267,6 +278,9 @@ SUBS = {
     "PascalString": lambda: C.PascalString(C.Byte, "utf8"), "Float32b": lambda: C.Float32b, "GreedyBytes": lambda: C.GreedyBytes,
     "Struct": lambda: C.Struct("x" / C.Byte, "y" / C.Bytes(this.x)), "Enum": lambda: C.Enum(C.Byte, a=1, b=2),
     "Int24ub": lambda: C.Int24ub, "Computed": lambda: C.Computed(7),
+    # elements that look at the scope their repetition runs in (for PrefixedArray: the documented expansion's count and items)
+    "BytesCount": lambda: C.Bytes(this.count), "RowOfCount": lambda: C.Byte[this.count],
+    "StructUp": lambda: C.Struct("x" / C.Byte, "c" / C.Computed(this._.count), "n" / C.Computed(lambda ctx: len(ctx._.get("items", ())))),
 }
 
 LAWS = {"byteswapped-ctx": law_byteswapped_ctx, "bytesint_bits": law_bytesint_bits, "int24": law_int24, "alias": law_alias, "short": law_short, "floatalias": law_floatalias,
@@ -309,7 +323,7 @@ def instances():
         for pat in (b"\x00", b"\xff", b"x"):
             out.append(("padding", [n, pat]))
     for cf in ("Byte", "VarInt", "Int16ul", "Int8sb"):
-        for sub in ("Byte", "Int16ub", "CString", "Struct", "Flag"):
+        for sub in ("Byte", "Int16ub", "CString", "Struct", "Flag", "BytesCount", "RowOfCount", "StructUp"):
             out.append(("prefixedarray", [cf, sub]))
     for cf in ("Byte", "VarInt", "Int16ul"):
         for sub in ("Byte", "Int16ub", "Int24ub", "CString", "VarInt", "Struct", "Flag"):
@@ -317,6 +331,9 @@ def instances():
                 out.append(("prefixedarray-lazyparent", [cf, sub, parent]))
     for widths in ([8], [1, 7], [4, 4], [3, 5, 8], [1, 2, 3], [12, 4], [7, 9], [1], [16], [5, 6, 5], [24, 8], [9]):
         out.append(("bitstruct", [widths]))
+        if sum(widths) % 8 == 0 and len(widths) > 1:
+            out.append(("bitstruct", [widths, "mixed"]))
+            out.append(("bitstruct", [widths, "keyword"]))
     for m in (2, 3, 4, 8):
         for subs in (["Byte"], ["Byte", "Int16ub"], ["Int24ub", "Byte", "CString"], ["VarInt", "Flag"]):
             out.append(("alignedstruct", [m, subs]))
@@ -376,7 +393,7 @@ def values_for(kind, layout):
     if kind == "none":
         return [None, 0, b"", b"\x00", "x", {}]
     if kind == "list":
-        return [[], [1], [1, 2], [1, 2, 3], [300], [0], [0, None], [0, 5], [1, None], [-1], ["a"], ["a", "bc"], [b"ab"], [dict(x=1, y=b"a")], [True, False], None, 5, [None], [1] * 300, (1, 2), "ab", b"ab", [1.5]]
+        return [[], [1], [1, 2], [1, 2, 3], [b"a"], [b"ab", b"cd"], [[7]], [[1, 2], [3, 4]], [dict(x=1)], [dict(x=1), dict(x=2)], [300], [0], [0, None], [0, 5], [1, None], [-1], ["a"], ["a", "bc"], [b"ab"], [dict(x=1, y=b"a")], [True, False], None, 5, [None], [1] * 300, (1, 2), "ab", b"ab", [1.5]]
     if kind == "label":
         return ["one", "two", "seven", "eight", "three", "", 1, 2, 7, 8, 3, 0, 255, 256, -1, 65536, None, 1.0, b"one", E1.one, E1.seven, F1.eight, F1.one | F1.two, True, "one|two",
                 "uno", "both", "none", E2.uno]
